@@ -195,6 +195,21 @@ def make_traj(rng, family):
         roll = _sinus(rng.uniform(-180, 180), rng.uniform(-25, 25), rng.uniform(0, 20), rng.uniform(0.3, 1.5), rng.uniform(0, 6))
         pitch = _sinus(0.0, 0.0, rng.uniform(10, 70), rng.uniform(0.2, 0.8), rng.uniform(0, 6))
         head = _sinus(rng.uniform(-180, 180), rng.uniform(-25, 25), rng.uniform(0, 20), rng.uniform(0.3, 1.5), rng.uniform(0, 6))
+    elif family == 'leg':
+        # long, fast, mostly north-south (or diagonal) leg: tens of minutes at ~290 m/s, several degrees of latitude
+        speed = rng.uniform(250, 295)
+        lat0 = rng.choice([-1, 1]) * rng.uniform(25, 60)
+        az = rng.choice([0.0, math.pi, math.pi / 4, 5 * math.pi / 4]) + rng.uniform(-0.15, 0.15)
+        coslat = math.cos(lat0 * D2R)
+        latr = speed * math.cos(az) / rm / D2R
+        lonr = speed * math.sin(az) / (rm * coslat) / D2R
+        meta.update(lat0=lat0, speed=speed, az=az)
+        lat = _sinus(lat0, latr, 30.0 / rm / D2R, rng.uniform(0.005, 0.02), rng.uniform(0, 6))
+        lon = _sinus(lon0, lonr, 30.0 / (rm * coslat) / D2R, rng.uniform(0.005, 0.02), rng.uniform(0, 6))
+        alt = _sinus(alt0, 0.0, rng.uniform(0, 200), rng.uniform(0.005, 0.02), rng.uniform(0, 6))
+        roll = _sinus(0.0, 0.0, rng.uniform(0, 5), rng.uniform(0.01, 0.05), rng.uniform(0, 6))
+        pitch = _sinus(rng.uniform(-3, 3), 0.0, rng.uniform(0, 2), rng.uniform(0.01, 0.05), rng.uniform(0, 6))
+        head = _sinus(math.degrees(az), 0.0, rng.uniform(0, 2), rng.uniform(0.01, 0.05), rng.uniform(0, 6))
     else:
         raise ValueError(family)
     return Traj(lat, lon, alt, roll, pitch, head, family, meta)
@@ -203,8 +218,9 @@ def make_traj(rng, family):
 _GL = np.polynomial.legendre.leggauss(10)
 
 
-def truth(traj, time):
-    """sampled states and the exact rate / increment readings on the grid `time`."""
+def truth(traj, time, integrals=True):
+    """sampled states and the exact rate / increment readings on the grid `time` (any, also non-uniform, grid:
+    the increment of row k is the integral over [time[k-1], time[k]])."""
     st = [traj.state(float(t)) for t in time]
     lla = np.array([s[0] for s in st])
     vel = np.array([s[1] for s in st])
@@ -214,7 +230,7 @@ def truth(traj, time):
     dth = np.zeros((len(time), 3))
     dv = np.zeros((len(time), 3))
     x, wt = _GL
-    for k in range(1, len(time)):
+    for k in range(1, len(time) if integrals else 0):
         a, b = float(time[k - 1]), float(time[k])
         for xi, wi in zip(x, wt):
             s = traj.state(0.5 * (a + b) + 0.5 * (b - a) * xi)
@@ -236,11 +252,38 @@ def synthesise(time, tr, form, sensor_type):
     return sim.generate_imu(time, tr['lla'][0], tr['rph'], tr['vel'], sensor_type)
 
 
-def imu_errors(traj, dt, total, form, sensor_type, trim=3, tr=None):
-    """max |gyro error| [rad/s], max |accel error| [m/s^2] (increments divided by dt), plus the returned
-    trajectory's deviation from the analytic one (position [m], velocity [m/s])."""
-    n = int(round(total / dt)) + 1
-    time = np.arange(n) * dt
+def make_grid(rng, dt, total, uniform):
+    """sample times: uniform with step dt, or jittered steps dt*U(0.42, 0.5) with ~10 % dropped samples
+    (steps between 0.42 dt and dt)."""
+    if uniform:
+        return np.arange(int(round(total / dt)) + 1) * dt
+    t, out = 0.0, [0.0]
+    while t < total:
+        t += dt * rng.uniform(0.42, 0.5)
+        if rng.random() < 0.1 and len(out) > 1:
+            continue                                  # dropped sample
+        out.append(t)
+    return np.array(out)
+
+
+def refine(time):
+    """halve every sampling interval (insert the midpoints)."""
+    out = np.empty(2 * len(time) - 1)
+    out[0::2] = time
+    out[1::2] = 0.5 * (time[:-1] + time[1:])
+    return out
+
+
+def steps_of(time):
+    """per-row sampling interval; row 0 carries the duplicate of row 1 (generate_imu convention)."""
+    d = np.diff(time)
+    return np.r_[d[0], d]
+
+
+def imu_errors(traj, time, form, sensor_type, trim=3, tr=None):
+    """max |gyro error| [rad/s], max |accel error| [m/s^2] (increments divided by THEIR OWN interval), plus the
+    returned trajectory's deviation from the analytic one (position [m], velocity [m/s])."""
+    n = len(time)
     if tr is None:
         tr = truth(traj, time)
     trj, imu = synthesise(time, tr, form, sensor_type)
@@ -249,7 +292,8 @@ def imu_errors(traj, dt, total, form, sensor_type, trim=3, tr=None):
     if sensor_type == 'rate':
         eg, ea = g - tr['w'], a - tr['f']
     else:
-        eg, ea = (g - tr['dth']) / dt, (a - tr['dv']) / dt
+        dtv = steps_of(time)[:, None]
+        eg, ea = (g - tr['dth']) / dtv, (a - tr['dv']) / dtv
     sl = slice(trim, n - trim)
     lla = trj[['lat', 'lon', 'alt']].values
     dpos = np.abs(np.column_stack([(lla[:, 0] - tr['lla'][:, 0]) * D2R * 6.4e6,
@@ -298,21 +342,33 @@ def _case_rng(seed, k):
     return random.Random(seed * 1000003 + 7919 * k + 3)
 
 
+POS_TOL = 5e-3         # returned position of the initial-value form vs the analytic motion [m] (clean: < 1e-5 m in 4 s)
+
+
 def traj_case(seed, k, family, dts, want_closed_loop=True):
-    """all checks on one analytic trajectory; returns (list of failure strings, summary dict)."""
-    traj = make_traj(_case_rng(seed, k), family)
+    """all checks on one analytic trajectory; odd k use a NON-UNIFORM time grid (jitter + dropped samples), the
+    finer grids are obtained by halving every interval.  Returns (list of failure strings, summary dict)."""
+    rng = _case_rng(seed, k)
+    traj = make_traj(rng, family)
+    uniform = (k % 2 == 0)
     fails = []
     summ = {}
     imus = {}
-    truths = {dt: truth(traj, np.arange(int(round(TOTAL / dt)) + 1) * dt) for dt in dts}
+    grids = {}
+    g = make_grid(_case_rng(seed, 500000 + k), dts[0], TOTAL, uniform)
+    for dt in dts:
+        grids[dt] = g
+        g = refine(g)
+    truths = {dt: truth(traj, grids[dt]) for dt in dts}
+    hmin = {dt: float(np.diff(grids[dt]).min()) for dt in dts}
     for form in FORMS:
         for st in ('rate', 'increment'):
             prev = None
             for dt in dts:
-                e, (trj, imu, tr) = imu_errors(traj, dt, TOTAL, form, st, tr=truths[dt])
+                e, (trj, imu, tr) = imu_errors(traj, grids[dt], form, st, tr=truths[dt])
                 imus[(form, st, dt)] = imu
                 summ[f"{form}/{st}/{dt}"] = e
-                fl = dict(gyro=GYRO_FLOOR, accel=ACC_FLOOR(dt))
+                fl = dict(gyro=GYRO_FLOOR, accel=ACC_FLOOR(hmin[dt]))
                 for ch in ('gyro', 'accel'):
                     if not np.isfinite(e[ch]):
                         fails.append(f"{form}/{st} dt={dt}: {ch} reading not finite")
@@ -321,6 +377,9 @@ def traj_case(seed, k, family, dts, want_closed_loop=True):
                                      f"{prev[ch]:.3e} -> {e[ch]:.3e} at dt={dt}")
                     if dt <= 0.05 and e[ch] > ABS[ch] + fl[ch]:
                         fails.append(f"{form}/{st} dt={dt}: {ch} error {e[ch]:.3e} above bound {ABS[ch]}")
+                if form == 'init+vel' and e['pos'] > POS_TOL:
+                    fails.append(f"init+vel/{st} dt={dt}: returned position is {e['pos']:.3e} m off the motion "
+                                 f"that has the given velocity")
                 prev = e
                 if want_closed_loop:
                     cl = closed_loop(trj, imu, st)
@@ -331,10 +390,10 @@ def traj_case(seed, k, family, dts, want_closed_loop=True):
             prev = None
             for dt in dts:
                 a, b = imus[('pos+vel', st, dt)].values, imus[(other, st, dt)].values
-                sc = 1.0 if st == 'rate' else dt
-                d = dict(gyro=float(np.abs(a[3:-3, :3] - b[3:-3, :3]).max()) / sc,
-                         accel=float(np.abs(a[3:-3, 3:] - b[3:-3, 3:]).max()) / sc)
-                fl = dict(gyro=GYRO_FLOOR, accel=2 * ACC_FLOOR(dt))
+                sc = 1.0 if st == 'rate' else steps_of(grids[dt])[3:-3, None]
+                d = dict(gyro=float(np.abs((a[3:-3, :3] - b[3:-3, :3]) / sc).max()),
+                         accel=float(np.abs((a[3:-3, 3:] - b[3:-3, 3:]) / sc).max()))
+                fl = dict(gyro=GYRO_FLOOR, accel=2 * ACC_FLOOR(hmin[dt]))
                 for ch in ('gyro', 'accel'):
                     if prev is not None and d[ch] > max(FALL * prev[ch], fl[ch]):
                         fails.append(f"forms pos+vel and {other} ({st}): {ch} difference does not fall: "
@@ -357,7 +416,50 @@ def traj_case(seed, k, family, dts, want_closed_loop=True):
                         if dt <= 0.05 and cl[ch] > CL_ABS[ch]:
                             fails.append(f"closed loop {form}/{st} dt={dt}: {ch} error {cl[ch]:.3e} above {CL_ABS[ch]}")
                     prev = cl
-    return fails, dict(meta=traj.meta, errors=summ)
+    meta = dict(traj.meta, grid='uniform' if uniform else 'non-uniform',
+                steps_ms=[round(1e3 * float(np.diff(grids[dts[0]]).min()), 1), round(1e3 * float(np.diff(grids[dts[0]]).max()), 1)])
+    return fails, dict(meta=meta, errors=summ)
+
+
+LEG_TOTAL = 2400.0
+LEG_POS_TOL = 5e-3       # [m]   clean tree: <= 4e-5 m after 2400 s
+LEG_ACC = lambda dt: 1e-4 + 2 * ACC_FLOOR(dt)   # forms difference / truth error [m/s^2]; clean: 5e-6 (0.1), 1.6e-5 (0.05)
+
+
+def leg_case(seed, k, dt=0.1, total=LEG_TOTAL):
+    """a long fast north-south / diagonal leg (40 min at ~290 m/s, ~6 deg of latitude) in the
+    'initial position + velocity' form: the returned position must be the motion that has the given velocity
+    (analytic position, velocity from it by the independent WGS-84 kinematics), and the readings must agree
+    with the position+velocity form and with the closed-form specific force."""
+    traj = make_traj(_case_rng(seed, 300000 + k), 'leg')
+    time = np.arange(int(round(total / dt)) + 1) * dt
+    tr = truth(traj, time, integrals=False)
+    fails = []
+    summ = {}
+    for st in ('rate', 'increment'):
+        trj_a, imu_a = synthesise(time, tr, 'pos+vel', st)
+        trj_b, imu_b = synthesise(time, tr, 'init+vel', st)
+        lla = trj_b[['lat', 'lon', 'alt']].values
+        dn = float(np.abs((lla[:, 0] - tr['lla'][:, 0]) * D2R * 6.4e6).max())
+        de = float(np.abs((lla[:, 1] - tr['lla'][:, 1]) * D2R * 6.4e6 * np.cos(tr['lla'][:, 0] * D2R)).max())
+        dd = float(np.abs(lla[:, 2] - tr['lla'][:, 2]).max())
+        sc = 1.0 if st == 'rate' else dt
+        dacc = float(np.abs(imu_a.values[3:-3, 3:] - imu_b.values[3:-3, 3:]).max()) / sc
+        dgyr = float(np.abs(imu_a.values[3:-3, :3] - imu_b.values[3:-3, :3]).max()) / sc
+        summ[st] = dict(north=dn, east=de, down=dd, accel_forms=dacc, gyro_forms=dgyr)
+        if max(dn, de, dd) > LEG_POS_TOL:
+            fails.append(f"init+vel/{st}: after {total:.0f} s the returned position is off the motion with the given "
+                         f"velocity by north {dn:.3e} east {de:.3e} down {dd:.3e} m")
+        if dacc > LEG_ACC(dt):
+            fails.append(f"forms pos+vel and init+vel ({st}) disagree on the long leg: accel {dacc:.3e} m/s^2 at dt={dt}")
+        if dgyr > 1e-9:
+            fails.append(f"forms pos+vel and init+vel ({st}) disagree on the long leg: gyro {dgyr:.3e} rad/s")
+        if st == 'rate':
+            ea = float(np.abs(imu_b.values[3:-3, 3:] - tr['f'][3:-3]).max())
+            summ[st]['accel_truth'] = ea
+            if ea > LEG_ACC(dt):
+                fails.append(f"init+vel/rate: accel differs from the closed-form specific force by {ea:.3e} m/s^2 on the long leg")
+    return fails, dict(meta=traj.meta, dt=dt, errors=summ)
 
 
 def rest_case(seed, k, dt=0.1, n=12):
@@ -367,7 +469,12 @@ def rest_case(seed, k, dt=0.1, n=12):
     lon = rng.uniform(-180, 180)
     alt = rng.uniform(-400, 20000)
     rph = [rng.uniform(-180, 180), rng.uniform(-89, 89), rng.uniform(-180, 180)]
-    time = np.arange(n) * dt
+    if k % 2 == 0:
+        time = np.arange(n) * dt
+    else:                                           # non-uniform: steps 30 .. 100 ms
+        time = np.concatenate([[0.0], np.cumsum([rng.uniform(0.03, 0.1) for _ in range(n - 1)])])
+    dtv = steps_of(time)[:, None]
+    hmin = float(dtv.min())
     phi = lat * D2R
     C = cnb_from_rph(*(np.array(rph) * D2R))
     g = G_E * (1 + G_F * math.sin(phi) ** 2) / math.sqrt(1 - E2 * math.sin(phi) ** 2) * (1 - 2 * alt / A_E)
@@ -379,53 +486,60 @@ def rest_case(seed, k, dt=0.1, n=12):
     for form in FORMS:
         for st in ('rate', 'increment'):
             trj, imu = synthesise(time, tr, form, st)
-            sc = 1.0 if st == 'rate' else dt
+            sc = 1.0 if st == 'rate' else dtv              # each increment over ITS OWN interval
             eg = float(np.abs(imu.values[:, :3] / sc - w_true).max())
             ea = float(np.abs(imu.values[:, 3:] / sc - f_true).max())
             worst['gyro'] = max(worst['gyro'], eg)
             worst['accel'] = max(worst['accel'], ea)
             if not (eg <= 1e-11):
                 fails.append(f"at rest, {form}/{st}: gyro differs from C^T rate_n by {eg:.3e} rad/s")
-            if not (ea <= ACC_FLOOR(dt)):
+            if not (ea <= ACC_FLOOR(hmin)):
                 fails.append(f"at rest, {form}/{st}: accel differs from -C^T gravity_n by {ea:.3e} m/s^2")
             if np.abs(trj[['lat', 'lon', 'alt']].values - [lat, lon, alt]).max() > 1e-9 or \
                     np.abs(trj[['VN', 'VE', 'VD']].values).max() > 1e-6:
                 fails.append(f"at rest, {form}/{st}: returned trajectory moves")
-    return fails, dict(lat=lat, lon=lon, alt=alt, rph=rph, worst=worst)
+    return fails, dict(lat=lat, lon=lon, alt=alt, rph=rph, worst=worst,
+                       steps_ms=[round(1e3 * hmin, 1), round(1e3 * float(dtv.max()), 1)])
 
 
 def poly_case(seed, k):
-    """_compute_increment_readings against Gauss-Legendre quadrature of the polynomial model of the theorem
-    (exact for degree 7): used by the falsifier to produce a concrete witness when the proof breaks."""
+    """_compute_increment_readings on a stack of intervals of DIFFERENT lengths against Gauss-Legendre quadrature
+    of the polynomial model of the theorem (exact for degree 7), row by row."""
     from pyins import sim
     rng = _case_rng(seed, 200000 + k)
-    dt = rng.uniform(0.005, 0.1)
-    a, b, c, d, e = [np.array([rng.uniform(-s, s) for _ in range(3)]) for s in (1.0, 3.0, 5.0, 30.0, 50.0)]
-    gy, ac = sim._compute_increment_readings(np.array([[dt]]), a[None], b[None], c[None], d[None], e[None])
+    n = 4
+    dt = np.array([[rng.uniform(0.005, 0.1)] for _ in range(n)])
+    a, b, c, d, e = [np.array([[rng.uniform(-s, s) for _ in range(3)] for _ in range(n)])
+                     for s in (1.0, 3.0, 5.0, 30.0, 50.0)]
+    gy, ac = sim._compute_increment_readings(dt, a, b, c, d, e)
     x, w = np.polynomial.legendre.leggauss(6)
-    G = np.zeros(3)
-    F = np.zeros(3)
-    for xi, wi in zip(x, w):
-        t = 0.5 * dt * (xi + 1)
-        th = a * t + b * t * t + c * t ** 3
-        thd = a + 2 * b * t + 3 * c * t * t
-        f = d + e * t
-        G += 0.5 * dt * wi * (thd - 0.5 * np.cross(th, thd) + np.cross(th, np.cross(th, thd)) / 6)
-        F += 0.5 * dt * wi * (f - np.cross(th, f) + 0.5 * np.cross(th, np.cross(th, f)))
-    eg = float(np.abs(gy[0] - G).max())
-    ea = float(np.abs(ac[0] - F).max())
     fails = []
-    if eg > 1e-12 * max(1.0, np.abs(G).max()):
-        fails.append(f"gyro increment is not the integral of theta' - 1/2 th x th' + 1/6 th x (th x th'): off by {eg:.3e}")
-    if ea > 1e-12 * max(1.0, np.abs(F).max()):
-        fails.append(f"accel increment is not the integral of (I - [th x] + 1/2 [th x]^2)(d + e t): off by {ea:.3e}")
-    return fails, dict(dt=dt, a=list(a), b=list(b), c=list(c), d=list(d), e=list(e))
+    for i in range(n):
+        G = np.zeros(3)
+        F = np.zeros(3)
+        h = float(dt[i, 0])
+        for xi, wi in zip(x, w):
+            t = 0.5 * h * (xi + 1)
+            th = a[i] * t + b[i] * t * t + c[i] * t ** 3
+            thd = a[i] + 2 * b[i] * t + 3 * c[i] * t * t
+            f = d[i] + e[i] * t
+            G += 0.5 * h * wi * (thd - 0.5 * np.cross(th, thd) + np.cross(th, np.cross(th, thd)) / 6)
+            F += 0.5 * h * wi * (f - np.cross(th, f) + 0.5 * np.cross(th, np.cross(th, f)))
+        eg = float(np.abs(gy[i] - G).max())
+        ea = float(np.abs(ac[i] - F).max())
+        if eg > 1e-12 * max(1.0, np.abs(G).max()):
+            fails.append(f"row {i}: gyro increment is not the integral over [0, {h:.4f}] of theta' - 1/2 th x th' "
+                         f"+ 1/6 th x (th x th'): off by {eg:.3e}")
+        if ea > 1e-12 * max(1.0, np.abs(F).max()):
+            fails.append(f"row {i}: accel increment is not the integral over [0, {h:.4f}] of "
+                         f"(I - [th x] + 1/2 [th x]^2)(d + e t): off by {ea:.3e}")
+    return fails, dict(dt=dt.ravel().tolist(), a=a.tolist(), b=b.tolist(), c=c.tolist(), d=d.tolist(), e=e.tolist())
 
 
 FAMILIES = ('gc', 'helix', 'tumble')
 
 
-def numeric(r, n_traj, n_rest, dts, seed=None, closed=True):
+def numeric(r, n_traj, n_rest, dts, seed=None, closed=True, legs=((0.1, 1),)):
     seed = r.seed if seed is None else seed
     out = []
     dist = {}
@@ -447,6 +561,17 @@ def numeric(r, n_traj, n_rest, dts, seed=None, closed=True):
         for f in fails[:2]:
             out.append((f, dict(kind='rest', seed=seed, k=k, what=f)))
     dist['rest'] = n_rest
+    nleg = 0
+    for dt, cnt in legs:
+        for j in range(cnt):
+            kk = nleg
+            nleg += 1
+            fails, summ = leg_case(seed, kk, dt)
+            r.case(('leg', kk, dt), sample=dict(kind='leg', k=kk, dt=dt, meta=summ['meta'], errors=summ['errors']))
+            for f in fails[:2]:
+                out.append((f, dict(kind='leg', seed=seed, k=kk, dt=dt, what=f)))
+    dist['leg'] = nleg
+    dist['non_uniform_grids'] = dict(trajectories=n_traj // 2, rest=n_rest // 2)
     r.coverage['distribution'] = dict(trajectories=dist, forms=list(FORMS), sensor_types=['rate', 'increment'],
                                       intervals=list(dts), total_time_s=TOTAL)
     return out
@@ -479,10 +604,16 @@ def check(r):
     r.generate(['Earth', 'Transform', 'C03Gen'])
     r.prove('Props/C03.v')
     if r.tier == 'quick':
-        fails = numeric(r, n_traj=6, n_rest=20, dts=(0.1, 0.05))
+        fails = numeric(r, n_traj=6, n_rest=20, dts=(0.1, 0.05), legs=((0.1, 1),))
     else:
-        fails = numeric(r, n_traj=120, n_rest=1000, dts=(0.1, 0.05, 0.025, 0.0125))
+        fails = numeric(r, n_traj=120, n_rest=1000, dts=(0.1, 0.05, 0.025, 0.0125), legs=((0.1, 6), (0.05, 3)))
         for k in range(1000):
+            f, rep = poly_case(r.seed, k)
+            r.case(('poly', k))
+            for x in f[:1]:
+                fails.append((x, dict(kind='poly', seed=r.seed, k=k, what=x)))
+    if r.tier == 'quick':
+        for k in range(50):
             f, rep = poly_case(r.seed, k)
             r.case(('poly', k))
             for x in f[:1]:
@@ -491,7 +622,8 @@ def check(r):
     for what, rep in fails[:5]:
         r.violation(what, rep)
     if r.tier == 'thorough':
-        r.hygiene()
+        r.hygiene('Props/C03.v')
+        r.coqchk('Props/C03.v')
 
 
 def falsify(r):
@@ -517,6 +649,11 @@ def falsify(r):
                                       dts=[0.1, 0.05, 0.025], closed_loop=True, what=x)))
             if len(found) >= 3:
                 break
+    if len(found) < 3:
+        for k in range(3):
+            f, _ = leg_case(r.seed + 1, k, 0.1)
+            for x in f[:1]:
+                found.append((x, dict(kind='leg', seed=r.seed + 1, k=k, dt=0.1, what=x)))
     for what, rep in found[:5]:
         r.violation(what, rep)
 
@@ -536,6 +673,9 @@ def replay(obj):
     elif kind == 'poly':
         fails, summ = poly_case(rep['seed'], rep['k'])
         print("increment kernel input:", summ)
+    elif kind == 'leg':
+        fails, summ = leg_case(rep['seed'], rep['k'], rep.get('dt', 0.1))
+        print("long leg:", summ)
     else:
         print("unknown replay kind")
         return 0
